@@ -60,6 +60,7 @@ fn gen(t: &mut Tape, _tier: Tier) -> Scenario {
     let mut opts = OptSpec::default();
     let mut raw = RawSpec::default();
     let mut input;
+    let mut variant = String::new();
     match t.below(5) {
         0 | 1 => {
             let b = gen_lzma(t, 0, 3000);
@@ -101,10 +102,29 @@ fn gen(t: &mut Tape, _tier: Tier) -> Scenario {
             let plan = gen_xz_plan(t, 500);
             input = build_xz(&plan).bytes;
             sc.set_i("ep", EP_XZ);
+            if t.below(2) == 0 {
+                // a stored field replaced with every enclosing CRC recomputed, so
+                // that only the field's own validation (e.g. a padding scan that
+                // spans several refills) decides the verdict
+                let vs = super::c06::field_variants(t, &plan);
+                if !vs.is_empty() {
+                    // padding variants are the ones whose scan depends on refills
+                    let pads: Vec<usize> = (0..vs.len())
+                        .filter(|i| vs[*i].1.contains("pad"))
+                        .collect();
+                    let i = if !pads.is_empty() && t.below(2) == 0 {
+                        pads[t.below(pads.len() as u64) as usize]
+                    } else {
+                        t.below(vs.len() as u64) as usize
+                    };
+                    input = build_xz(&vs[i].0).bytes;
+                    variant = vs[i].2.clone();
+                }
+            }
         }
     }
     let m = mutate(t, &mut input);
-    sc.note = format!("mutation: {}", m);
+    sc.note = format!("mutation: {}{}", m, if variant.is_empty() { String::new() } else { format!("; CRC-consistent field substitution: {}", variant) });
     sc.set_b("input", input);
     opts.store(&mut sc);
     raw.store(&mut sc);
